@@ -484,7 +484,50 @@ def strat_group(draw, tier):
     return {'fs': band['fs'], 'f_range': band['f_range'], 'signals': signals, 'settings': draw(st_settings(band)), 'ops': ops}
 
 
+def enum_shortest(tier, shard, nshards):
+    """recordings one to three samples longer than the three-cycle filter, over a grid of sampling rates and bands (the lengths at
+    which a duplicated length rule would first disagree with the functional API)"""
+    rates = [100, 128, 250, 441, 500, 503, 512, 1000] if tier == 'quick' else [100, 125, 128, 200, 250, 256, 300, 333, 441, 500, 503, 512, 600, 1000, 1024, 2000]
+    idx = 0
+    for fs in rates:
+        for f_lo in range(3, 31):
+            if fs / f_lo < 6:
+                continue
+            for extra in (-1, 0, 1, 2, 3):
+                for center in ('peak', 'trough'):
+                    idx += 1
+                    if idx % nshards != shard:
+                        continue
+                    yield {'fs': fs, 'f_lo': f_lo, 'extra': extra, 'center': center, 'fek': [None, {'boundary': 0}, {'filter_kwargs': {'n_cycles': 2}}][idx % 3]}
+
+
+def check_shortest(case, rec):
+    import math
+    fs, f_lo = case['fs'], case['f_lo']
+    fr = (f_lo, f_lo * 1.5)
+    L = int(math.ceil(3 * fs / f_lo))
+    L = L + 1 if L % 2 == 0 else L
+    n = L + case['extra']
+    t = np.arange(n) / fs
+    x = np.sin(2 * np.pi * f_lo * 1.2 * t + 0.3) + 0.2 * np.sin(2 * np.pi * f_lo * 3.1 * t) + 0.05 * np.cos(0.37 * np.arange(n) ** 1.5)
+    kw = dict(center_extrema=case['center'], find_extrema_kwargs=gen.copy_json(case['fek']), return_samples=True)
+    res_fun = outcome(lambda: compute_features(x.copy(), fs, fr, **kw))
+    bm = Bycycle(center_extrema=case['center'], find_extrema_kwargs=gen.copy_json(case['fek']), return_samples=True)
+    res_obj = outcome(lambda: bm.fit(x.copy(), fs, fr))
+    if res_fun[0] != res_obj[0]:
+        raise Violation('fit-outcome-differs-from-functional', 'fs=%s f_range=%s n=%d (filter %d): compute_features -> %s %s, Bycycle.fit -> %s %s' % (
+            fs, fr, n, L, res_fun[0], '' if res_fun[0] == 'ok' else res_fun[1], res_obj[0], '' if res_obj[0] == 'ok' else res_obj[1]))
+    if res_fun[0] == 'ok':
+        ok, why = ref.frames_equal(bm.df_features, res_fun[1])
+        if not ok:
+            raise Violation('fit-differs-from-functional', 'fs=%s f_range=%s n=%d: %s' % (fs, fr, n, why))
+    rec.label('accepted' if res_fun[0] == 'ok' else 'rejected:' + res_fun[0], 'extra:%d' % case['extra'])
+    rec.nontrivial(res_fun[0] == 'ok')
+
+
 PARTS = [
+    Part('shortest-signals', check_shortest, enum=enum_shortest, shards={'quick': 4, 'thorough': 8}, exhaustive=True,
+         time_cap={'quick': 150, 'thorough': 900}),
     Part('object-history', check, strategy=strategy, budget={'quick': 640, 'thorough': 12000}, shards={'quick': 16, 'thorough': 16}),
     Part('group-history', check_group, strategy=strat_group, budget={'quick': 160, 'thorough': 3000}, shards={'quick': 16, 'thorough': 16},
          time_cap={'quick': 200, 'thorough': 3000}),
